@@ -204,6 +204,16 @@ impl Face {
         if rows.is_empty() {
             return true;
         }
+        // only inputs of ordinary magnitude are judged: far from the origin the wedge between a rounded and
+        // an ideal breakpoint is wide, but every input there is "within rounding distance of a breakpoint"
+        let bound = Q::int(1 << 20);
+        for j in 0..n {
+            for sg in [1i64, -1] {
+                let mut a = vec![Q::ZERO; n + 1];
+                a[j] = Q::int(sg);
+                rows.push(Row::le(a, bound.clone()));
+            }
+        }
         let mut c = vec![Q::ZERO; n + 1];
         c[n] = Q::ONE;
         match maximize(n + 1, &rows, &c) {
